@@ -79,6 +79,8 @@ class Analyzer:
         for node in self.tree.body:
             if isinstance(node, ast.Assign) and len(node.targets) == 1 and isinstance(node.targets[0], ast.Name):
                 self.module_consts[node.targets[0].id] = node.value
+            elif isinstance(node, ast.AnnAssign) and isinstance(node.target, ast.Name) and node.value is not None:
+                self.module_consts[node.target.id] = node.value
             elif isinstance(node, (ast.FunctionDef, ast.AsyncFunctionDef)):
                 self.module_funcs[node.name] = node
             elif isinstance(node, ast.ImportFrom) and node.module == "model_conversions":
